@@ -296,6 +296,19 @@ pub fn run(ctx: &mut Ctx) {
             cases.push(SimpCase { base: c.ds, source: "self".into(), k: 0, pick: 0, swaps: sw(k), known: String::new(), words: vec![], repeat: 0 });
         }
     }
+    // one cube with its opposite faces glued with quarter-turn twists: up to 64 inputs with literally the
+    // same tiles (operations 0, 1, 2 and numbering) and different gluings, of different topology (3-torus,
+    // flat manifolds with holonomy, spherical space forms); neighbours in the case list, so that the same
+    // worker meets several of them in a row
+    for round in 0..3usize {
+        for code in 0..64usize {
+            let tw = [code % 4, (code / 4) % 4, code / 16];
+            let base = crate::gen::manifold::cube_gluing(tw);
+            if base.ops_are_involutions() && base.commutes() {
+                cases.push(SimpCase { base, source: "self".into(), k: 0, pick: 0, swaps: sw(code + 64 * round), known: if code == 0 { "3-torus (one cube, faces glued by translations)".into() } else { String::new() }, words: vec![], repeat: 0 });
+            }
+        }
+    }
     // class (B): branching up to 5
     for n in 1..=t.pick(2, 3) {
         for (k, s) in symbols_of_size(n, &[1, 2, 3, 4, 5]).into_iter().enumerate() {
